@@ -166,53 +166,49 @@ example : (runQuantum (runQuanta {} [[⟨.join, "a", 1⟩], []]).1 [⟨.failed, 
 section SourceTies
 open SerfModel.CoalesceShapes SerfModel.Gen.Coalescers
 
-/-- **The suppression guard of `Flush`, evaluated.**  The condition in
-`if <cond> { continue }` — as it stands in the source — is true exactly when the member has an
-entry in `lastEvents` (`ok`), its kind equals the pending kind, and the pending kind is not an
-update: the model's `suppressed`. -/
-theorem C17_suppress_cond_tie (ok : Bool) (previous cur : Kind) :
-    memberSuppressCond.eval kindOps (memberEnvB ok) (memberEnvV previous cur) =
-      some (ok && previous == cur && cur != .update) := by
-  cases ok <;> cases previous <;> cases cur <;> rfl
-
-/-- … hence the model's `suppressed` is the source's guard, for every `lastEvents` and event. -/
-theorem C17_suppressed_is_source_guard (last : List (String × Kind)) (e : MEv) :
-    some (suppressed last e) =
-      memberSuppressCond.eval kindOps (memberEnvB (alookup last e.name).isSome)
-        (memberEnvV ((alookup last e.name).getD e.kind) e.kind) := by
-  rw [C17_suppress_cond_tie]
+/-- **The loop body of `Flush`, interpreted.**  For one pending event the source's loop body —
+guard translated and evaluated, actions `recordLast` (`lastEvents[name] = kind`) and `addToEvent`
+— does exactly what the model's `flushLoop` does: nothing when `suppressed`, otherwise record the
+kind and report the event.  Proved for every `lastEvents` and event, so a flipped guard with
+swapped branches, `if !(…) { … }` instead of `continue`, a renamed variable or a reordering of the
+two actions leaves it intact, and any change of the condition or of what is recorded breaks it. -/
+theorem C17_flush_body_is_source_program (last : List (String × Kind)) (out : List MEv) (e : MEv) :
+    runM memberFlushBody last out e =
+      some (if suppressed last e then (last, out) else (ainsert last e.name e.kind, out ++ [e])) := by
   cases h : alookup last e.name with
-  | none => simp [suppressed, h]
-  | some k => simp [suppressed, h]
+  | none => simp [memberFlushBody, runM, Cond.eval, memberEnvB, memberEnvV, suppressed, h]
+  | some k =>
+    cases k <;> cases hk : e.kind <;>
+      simp [memberFlushBody, runM, Cond.eval, memberEnvB, memberEnvV, kindOps, kindOfGo, suppressed, h, hk] <;>
+      first | rfl | decide
 
-/-- `Coalesce` stores every member of the event unconditionally under the member's name, with the
-event's type and a copy of the member (`coalesce c e = ainsert … e.name e`): no early out, no
-look at `lastEvents`, no merging with what is pending. -/
+/-- The guard alone, as a function of (`ok`, previous kind, pending kind). -/
+theorem C17_suppress_cond_tie (previous cur : Kind) :
+    runM memberFlushBody [("m", previous)] [] ⟨cur, "m", 0⟩ =
+      some (if previous == cur && cur != .update then ([("m", previous)], [])
+            else ([("m", cur)], [⟨cur, "m", 0⟩])) := by
+  cases previous <;> cases cur <;> decide
+
+/-- `Coalesce` ranges over the members of the event and stores each unconditionally under the
+member's name, with the event's type and (a pointer to a copy of) the member: no early out, no look
+at `lastEvents`, no merging with what is pending (`coalesce c e = ainsert … e.name e`). -/
 theorem C17_coalesce_stores_unconditionally :
-    memberCoalesceStmts = ["e := raw.(MemberEvent)", "for _, m := range e.Members"] ∧
-    memberCoalesceLoopBody = ["c.latestEvents[m.Name] = coalesceEvent{Type: e.Type, Member: &m}"] := by decide
+    memberCoalesceRange = "range p0.(MemberEvent).Members" ∧ memberCoalesceBody = .act "store" .done := by decide
 
-/-- The loop of `Flush` over `latestEvents`: look up the last sent kind, skip if suppressed,
-otherwise record the pending kind in `lastEvents` (unconditionally, for every kind — `flushLoop`'s
-`ainsert last e.name e.kind`) and add the member to the event of its kind. -/
-theorem C17_flush_loop_shape :
-    memberFlushLoopBody =
-      ["previous, ok := c.lastEvents[name]", "if SUPPRESS { continue }", "c.lastEvents[name] = cevent.Type",
-       "newEvent, ok := events[cevent.Type]",
-       "if !ok { newEvent = &MemberEvent{Type: cevent.Type} events[cevent.Type] = newEvent }",
-       "newEvent.Members = append(newEvent.Members, *cevent.Member)"] := by decide
-
-/-- `Flush` as a whole: one pass over `latestEvents`, every grouped event is sent, and
-`latestEvents` is replaced by an empty map (`flush`'s `latest := []`). -/
+/-- `Flush` as a whole: a fresh grouping map, ONE pass over `latestEvents`, every grouped event is
+sent, and `latestEvents` is replaced by an empty map (`flush`'s `latest := []`). -/
 theorem C17_flush_shape :
     memberFlushStmts =
-      ["events := make(map[EventType]*MemberEvent)", "for name, cevent := range c.latestEvents",
-       "for _, event := range events { outCh <- *event }", "c.latestEvents = make(map[string]coalesceEvent)"] := by decide
+      ["v0 := make(map[EventType]*MemberEvent)", "range r.latestEvents { BODY }", "range v0 { p0 <- *v0[*] }",
+       "r.latestEvents = make(map[string]coalesceEvent)"] := by decide
 
-/-- `Handle` accepts exactly the five member event kinds of the model. -/
-theorem C17_handle_kinds :
-    memberHandled.map kindOfGo = [some .join, some .leave, some .failed, some .update, some .reap] ∧
-    memberHandleDefaultFalse = true := by decide
+/-- **`Handle`, interpreted**: true exactly for the five member event kinds, false for user events
+and everything else (whatever the shape: separate cases, one case list, an if-chain). -/
+theorem C17_handle_is_source_program :
+    (∀ k : Kind, memberHandleProg.evalBool natOps (handleEnvB none) (handleEnvV (kindCode k)) = some true) ∧
+    memberHandleProg.evalBool natOps (handleEnvB (some true)) (handleEnvV 5) = some false ∧
+    memberHandleProg.evalBool natOps (handleEnvB none) (handleEnvV 6) = some false := by
+  refine ⟨fun k => by cases k <;> rfl, rfl, rfl⟩
 
 end SourceTies
 
